@@ -647,7 +647,7 @@ func main() {
 					// "C" only for the Go runtime's out-of-memory abort; any other death of the process is
 					// reported like a panic the model has to explain
 					letter := "P"
-					if strings.Contains(string(r1), "out of memory") {
+					if strings.Contains(string(r1), "out of memory") || strings.Contains(string(r1), "pthread_create failed") {
 						letter = "C"
 					}
 					j, _ := json.Marshal([]interface{}{pos, vals[i], letter, -1, nil})
@@ -667,13 +667,16 @@ func main() {
 	}
 
 	// corpus: a list header that claims 2^31-1 elements and nothing behind it. make(IdList, 2147483647) is
-	// 16 GiB: under the ulimit of the harness the Go runtime aborts the process (recorded finding); run alone.
+	// 16 GiB: under a ulimit of 8 GiB the Go runtime aborts the process (recorded finding); run alone. (The other
+	// driver processes get 56 GiB of address space: most hostile sizes then cost nothing, the pages are never touched.)
 	for _, vec := range vectors {
 		if vec.S.QName() == "a.Tdefs" && vec.unit.Prog.Key == "cp" && strings.HasPrefix(vec.unit.Key, "f0/") {
 			in := []byte{0x0f, 0x00, 0x02, 0x0a, 0x7f, 0xff, 0xff, 0xff}
 			pd := &pending{kind: "read", vec: vec, rkind: "hostile_list_size", input: in, valid: false}
 			c := gendrv.Cmd{Verb: "fastread", Args: []string{vec.unit.Key, vec.S.QName(), hex.EncodeToString(in), "new"}}
-			rs, cr, err := fastdrv.Run(b, []gendrv.Cmd{c}, lim)
+			lh := lim
+			lh.VirtualKB = 8 << 20 // 8 GiB: the 16 GiB slice cannot be allocated, on any machine
+			rs, cr, err := fastdrv.Run(b, []gendrv.Cmd{c}, lh)
 			if err != nil {
 				fmt.Fprintln(os.Stderr, "run (hostile size):", err)
 				os.Exit(1)
